@@ -46,7 +46,7 @@ def configs(tier):
     # (N, mode, req) -> B
     q = [(2, "batchsize", 2), (4, "batchsize", 2), (3, "num_batches", 2),
          (5, "num_batches", 3), (6, "batchsize", 2), (7, "num_batches", 4),
-         (4, "batchsize", 1)]
+         (4, "batchsize", 1), (5, "batchsize", 2)]
     if tier == "quick":
         return [{"N": n, "mode": m, "req": r, "alpha": "full", "depth": 12}
                 for n, m, r in q]
